@@ -22,10 +22,12 @@ request grammar (one line, 12 tokens):
             igraph a=N data=rows i,j  weights=vertex attribute  attr=edge values
     ops     comma list of copy ucopy pcopy saveload saveload_gml loadspatial
             loadspatial_gml loadgeo loadgeo_gml edgelist, the statements of a history on
-            the live object  setw=a_b_k setwnone setattr=a_b_c_k delattr setadj=a_b_c save
-            regraph  (arguments: formula_w / formula_v / formula_a below), or -
-answer: N|n_links|density|adjacency|graph edges|weights|total|mean|link attribute|
-        node_weight_nsi stored on the embedded graph object      or raise:<Exception>
+            the live object  setw=a_b_k setwnone setattr[2|3]=a_b_c_k delattr[2|3] setadj=a_b_c
+            save regraph  (arguments: formula_w / formula_v / formula_a below), or -
+            (setattr / setattr2 / setattr3 act on the names link_weights / corr / aux_1)
+answer: N|n_links|density|adjacency|graph edges|weights|total|mean|link_attribute(link_weights)|
+        node_weight_nsi stored on the embedded graph object|link_attribute(corr)|
+        link_attribute(aux_1)|graph.es.attributes() in order      or raise:<Exception>
 """
 import contextlib
 import io
@@ -40,7 +42,9 @@ from fractions import Fraction
 import numpy as np
 
 ATTR = "link_weights"
-ATTR2 = "corr"      # a second link attribute (oracle only; no underscore: survives GML)
+ATTR2 = "corr"      # a second link attribute (no underscore: survives GML)
+ATTR3 = "aux_1"     # a third one, created (and deleted) only by statements of a history
+ATTRS = {"": ATTR, "2": ATTR2, "3": ATTR3}      # op suffix -> name
 OBS = ["N", "n_links", "link_density", "adjacency", "graph", "node_weights",
        "total_node_weight", "mean_node_weight", "link_attribute"]
 
@@ -347,11 +351,12 @@ class Impl:
         if op == "setwnone":
             net.node_weights = None
             return net
-        if op.startswith("setattr="):
-            net.set_link_attribute(ATTR, self.matrix(c, formula_v(net.N, net.directed, *op_args(op))))
+        if op.startswith("setattr"):
+            name = ATTRS[op.split("=")[0][len("setattr"):]]
+            net.set_link_attribute(name, self.matrix(c, formula_v(net.N, net.directed, *op_args(op))))
             return net
-        if op == "delattr":
-            net.del_link_attribute(ATTR)
+        if op.startswith("delattr"):
+            net.del_link_attribute(ATTRS[op[len("delattr"):]])
             return net
         if op.startswith("setadj="):
             A = np.array(formula_a(net.N, net.directed, *op_args(op)))
@@ -430,7 +435,12 @@ def observe(net):
         o["link_attribute2"] = [[exact(x) for x in row] for row in net.link_attribute(ATTR2)]
     except KeyError:
         o["link_attribute2"] = None
-    o["link_attribute_names"] = sorted(net.graph.es.attribute_names())
+    try:
+        o["link_attribute3"] = [[exact(x) for x in row] for row in net.link_attribute(ATTR3)]
+    except KeyError:
+        o["link_attribute3"] = None
+    o["link_attribute_names"] = list(net.graph.es.attributes())     # igraph keeps insertion order
+    o["find_link_attribute"] = [bool(net.find_link_attribute(a)) for a in (ATTR, ATTR2, ATTR3)]
     # what the embedded graph object carries (written by save, read by FromIGraph / Load)
     if "node_weight_nsi" in net.graph.vs.attribute_names():
         o["gvw"] = [exact(x) for x in net.graph.vs["node_weight_nsi"]]
@@ -446,7 +456,10 @@ def show_obs(o):
         "None" if o["node_weights"] is None else show_rats(o["node_weights"]),
         show_rat(o["total_node_weight"]), show_rat(o["mean_node_weight"]),
         "none" if o["link_attribute"] is None else show_mat(o["link_attribute"], show_rat),
-        "none" if o["gvw"] is None else show_rats(o["gvw"])])
+        "none" if o["gvw"] is None else show_rats(o["gvw"]),
+        "none" if o["link_attribute2"] is None else show_mat(o["link_attribute2"], show_rat),
+        "none" if o["link_attribute3"] is None else show_mat(o["link_attribute3"], show_rat),
+        ",".join(o["link_attribute_names"]) or "-"])
 
 
 MODEL_OPS = {"saveload:gml": "saveload_gml", "loadspatial:gml": "loadspatial_gml",
@@ -482,6 +495,7 @@ def expected(c):
     w = list(w)
     V = c.V                       # None: the attribute does not exist
     V2 = None if c.V is None else second_attr(c.V)      # the second attribute
+    V3 = None                                           # the third: histories only
     # node weights stored on the embedded graph object (None: nothing stored)
     gvw = list(c.w) if (c.ctor == "igraph" and c.w is not None) else None
     if not directed:
@@ -491,9 +505,9 @@ def expected(c):
         if kind == "ucopy":
             directed = False
             pairs |= set((j, i) for i, j in pairs)
-            V, V2, gvw = None, None, None
+            V, V2, V3, gvw = None, None, None, None
         elif kind in ("edgelist", "pcopy"):
-            V, V2, gvw = None, None, None
+            V, V2, V3, gvw = None, None, None, None
         elif kind == "copy":
             gvw = None
         elif kind in ("saveload", "loadspatial", "loadgeo", "save"):
@@ -506,10 +520,18 @@ def expected(c):
             V = formula_v(N, directed, *op_args(op))
         elif kind == "delattr":
             V = None
+        elif kind == "setattr2":
+            V2 = formula_v(N, directed, *op_args(op))
+        elif kind == "delattr2":
+            V2 = None
+        elif kind == "setattr3":
+            V3 = formula_v(N, directed, *op_args(op))
+        elif kind == "delattr3":
+            V3 = None
         elif kind == "setadj":
             A2 = formula_a(N, directed, *op_args(op))
             pairs = set((i, j) for i in range(N) for j in range(N) if A2[i][j])
-            V, V2, gvw = None, None, None
+            V, V2, V3, gvw = None, None, None, None
         elif kind == "regraph":
             w = list(gvw) if gvw is not None else [Fraction(1)] * N
     A = [[1 if (i, j) in pairs else 0 for j in range(N)] for i in range(N)]
@@ -530,13 +552,15 @@ def expected(c):
         e["link_attribute"] = None
     else:       # no link: link_attribute(name) is the zero matrix for every name
         e["link_attribute"] = [[Fraction(0)] * N for _ in range(N)]
-    if V2 is not None:
-        e["link_attribute2"] = [[V2[i][j] if A[i][j] else Fraction(0) for j in range(N)]
-                                for i in range(N)]
-    elif pairs:
-        e["link_attribute2"] = None
-    else:
-        e["link_attribute2"] = [[Fraction(0)] * N for _ in range(N)]
+    for key, W in (("link_attribute2", V2), ("link_attribute3", V3)):
+        if W is not None:
+            e[key] = [[W[i][j] if A[i][j] else Fraction(0) for j in range(N)] for i in range(N)]
+        elif pairs:
+            e[key] = None
+        else:
+            e[key] = [[Fraction(0)] * N for _ in range(N)]
+    if pairs:       # with a link, an attribute exists iff it was set (find_link_attribute)
+        e["find_link_attribute"] = [V is not None, V2 is not None, V3 is not None]
     return e
 
 
@@ -554,7 +578,7 @@ def close(a, b):
 def first_difference(o, e):
     for k in ["N", "directed", "n_links", "link_density", "adjacency", "sp_A", "graph",
               "node_weights", "total_node_weight", "mean_node_weight", "link_attribute",
-              "link_attribute2", "gvw"]:
+              "link_attribute2", "link_attribute3", "gvw"]:
         if k in e and not close(o[k], e[k]):
             return k
     if o["graph_n"] != o["N"] or o["graph_directed"] != o["directed"]:
@@ -584,6 +608,16 @@ def judge(ctx, c, o, ans, exc):
     # difference is one of the known losses of underscored names)
     if k != "link_attribute2" and not close(o["link_attribute2"], e["link_attribute2"]):
         ks.append("link_attribute2")
+    # find_link_attribute(name) and the names the graph object carries (judged apart from GML,
+    # whose renaming of underscored names is the known finding K3)
+    if fmt != "gml" and not any(op.startswith(("saveload:gml", "loadspatial:gml", "loadgeo:gml"))
+                                for op in c.ops):
+        if k is None and "find_link_attribute" in e and o["find_link_attribute"] != e["find_link_attribute"]:
+            ks.append("find_link_attribute")
+        extra = [a for a in o["link_attribute_names"] if a not in (ATTR, ATTR2, ATTR3)]
+        if extra:
+            o["extra_link_attributes"] = extra
+            ks.append("extra_link_attributes")
     for k in ks:
         sig = dict(base, kind="mismatch", observable=k, size=size)
         ctx.fail(sig, f"{c.cls} {c.label()} ops={c.ops}: {k} = {o.get(k)!r}, the specified "
@@ -676,10 +710,11 @@ def history_ops(rng, first=None):
         elif r < 0.24:
             ops.append("setwnone")
         elif r < 0.40:
-            ops.append("setattr=%d_%d_%d_%d" % (rng.randrange(0, 17), rng.randrange(0, 17),
-                                                rng.randrange(0, 17), rng.choice([0, 0, 0, -35, 35])))
+            ops.append("setattr%s=%d_%d_%d_%d" % (rng.choice(["", "", "2", "3", "3"]),
+                                                  rng.randrange(0, 17), rng.randrange(0, 17),
+                                                  rng.randrange(0, 17), rng.choice([0, 0, 0, -35, 35])))
         elif r < 0.45:
-            ops.append("delattr")
+            ops.append("delattr" + rng.choice(["", "2", "3"]))
         elif r < 0.62:
             ops.append("saveload:" + fm())
         elif r < 0.74:
